@@ -131,12 +131,12 @@ func lexSpec(src string) ([]stok, error) {
 type SExpr interface{ String() string }
 
 type (
-	SInt    struct{ V string } // decimal text (may be big)
-	SBool   struct{ V bool }
-	SStr    struct{ V string }
-	SNil    struct{}
-	SIdent  struct{ Name string }
-	SUnary  struct {
+	SInt   struct{ V string } // decimal text (may be big)
+	SBool  struct{ V bool }
+	SStr   struct{ V string }
+	SNil   struct{}
+	SIdent struct{ Name string }
+	SUnary struct {
 		Op string
 		X  SExpr
 	}
@@ -155,10 +155,10 @@ type (
 		Args []SExpr
 	}
 	SQuant struct {
-		Forall bool
-		Vars   []SBinder
-		Body   SExpr
-		Pats   []SExpr // optional triggers: forall x int {f(x), g(x)} :: body
+		Forall  bool
+		Vars    []SBinder
+		Body    SExpr
+		Pats    []SExpr   // optional triggers: forall x int {f(x), g(x)} :: body
 		AltPats [][]SExpr // further alternative trigger groups: forall x int {f(x)} {g(x)} :: body
 	}
 	SLet struct {
@@ -252,7 +252,7 @@ func (sp *specParser) fail(f string, a ...interface{}) {
 	panic(specErr(fmt.Sprintf(f, a...) + fmt.Sprintf(" at offset %d", sp.peek().pos)))
 }
 func (sp *specParser) peek() stok { return sp.toks[sp.p] }
-func (sp *specParser) next() stok  { t := sp.toks[sp.p]; sp.p++; return t }
+func (sp *specParser) next() stok { t := sp.toks[sp.p]; sp.p++; return t }
 func (sp *specParser) isOp(s string) bool {
 	t := sp.peek()
 	return t.k == tOp && t.s == s
